@@ -29,7 +29,7 @@ for mid, checks in PAIRS.items():
         vio = [l for l in out.split('\n') if l.startswith('VIOLATION')]
         inc = [l for l in out.split('\n') if l.startswith(('INCONCLUSIVE', 'ENGINE'))]
         verdict = {0: 'NOT DETECTED (exit 0)', 1: 'DETECTED (exit 1, natively reproduced)', 2: 'INCONCLUSIVE (exit 2)'}.get(code, 'exit %d' % code)
-        if 'does not apply' in out:
+        if re.search(r'^patch does not apply', out, flags=re.M):
             verdict = 'patch does not apply to the current tree'
         meta.setdefault('checks_run_against_it', {})['%s quick' % c] = {'verdict': verdict, 'first_line': (vio or inc or [''])[0][:400], 'wall_s': round(time.time() - t0)}
         print('%-8s %-4s %-45s %4ds  %s' % (mid, c, verdict, time.time() - t0, (vio or inc or [''])[0][40:200]), flush=True)
